@@ -3,8 +3,11 @@
 package core
 
 import (
+	"context"
 	"encoding/json"
+	"errors"
 	"fmt"
+	"net"
 	"os"
 	"os/signal"
 	"runtime"
@@ -27,6 +30,15 @@ func init() {
 	ch := make(chan os.Signal, 1)
 	signal.Notify(ch, syscall.SIGUSR2)
 	signal.Stop(ch)
+	// Go's DNS client keeps process-global state (resolv.conf snapshot + a semaphore channel) that is created on
+	// first use; it must be created outside any bubble or the second bubble of the process dies with
+	// "send on synctest channel from outside bubble".
+	r := &net.Resolver{PreferGo: true, Dial: func(ctx context.Context, network, address string) (net.Conn, error) {
+		return nil, errors.New("verifsim: resolver warm-up")
+	}}
+	ctx, cancel := context.WithTimeout(context.Background(), 2*time.Second)
+	r.LookupIP(ctx, "ip4", "warmup.verifsim.invalid")
+	cancel()
 }
 
 // Violation is one oracle failure.
@@ -41,6 +53,10 @@ type World struct {
 	Property string // C01 ...
 	Name     string // unique; a property may have several worlds
 	Weight   int    // share of the run budget among the property's worlds
+	// TimerRaces, when non-empty, says why exact trace hashes are not comparable across processes for this world
+	// (several timers of library code expire at the same simulated instant and the runtime wakes them in no fixed
+	// order); the determinism probe then only reports, and replays are confirmed by oracle rule.
+	TimerRaces string
 	Mode     string // "acct": run another property's world but judge only the acct- rules (C13)
 	// Gen draws a case from the tape. The result must be JSON-marshalable.
 	Gen func(t *tape.Tape, tier string) any
